@@ -12,3 +12,5 @@ import PlasVerif.Properties.C20
 import PlasVerif.Properties.C03
 import PlasVerif.Properties.C10
 import PlasVerif.Properties.C11
+import PlasVerif.Properties.C13
+import PlasVerif.Properties.C14
